@@ -59,4 +59,5 @@ def streams(tier, rng, P, only=None, cases=None):
     s1.ast_rebuild = rebuild
     s2 = execstream.exec_stream(tier, rng, P, only, cases)
     s3 = execstream.compile_stream(tier, rng, P, only, cases)
-    return [s for s in (s1, s2, s3) if only in (None, s.name)]
+    s4 = execstream.print_stream(tier, rng, P, only, cases)
+    return [s for s in (s1, s2, s3, s4) if only in (None, s.name)]
